@@ -602,7 +602,9 @@ def main():
                        "(stateless DFS over the enabled threads at each step) for: all 1+1/1+2/2+1/1+3 layouts x fast reload x 4 freshness-callback modes x on_should_reload callback x 8 creator scripts "
                        "(release and debug build), all 2 request + 2 acquire layouts x fast reload x freshness modes x 5 creator scripts; 3 requests + 3 acquires: "
                        + ("exhaustively for the 2- and 3-thread layouts and the 4-thread layout, seeded random schedules for the 6-thread layouts" if chk.thorough else "seeded random schedules")
-                       + ". distinct = distinct (configuration, event trace); non-trivial = distinct trace in which at least one request's flag-set takes effect while another "
+                       + ". The enumeration has a wall-clock budget (quick 95 s, thorough 1500 s; suites in the order small, 2+2, sampled, 3+3): configurations not finished by then are "
+                       "counted under truncated_enumerations and exhaustive_part.complete is false - on an idle 16-core box the budget is not reached. A watchdog / time-out report of a job is "
+                       "repeated alone up to 3 times before it counts (watchdog_retries). distinct = distinct (configuration, event trace); non-trivial = distinct trace in which at least one request's flag-set takes effect while another "
                        "operation holds the cache mutex or inside the running creator, or a thread goes to sleep on the notifier mutex while another one is inside a callback (i.e. not a sequential history)")
     chk.cov["exhaustive"] = False
     chk.cov["exhaustive_part"] = {"runs": ex_runs, "truncated_enumerations": truncated,
